@@ -318,6 +318,9 @@ def run_one(seed, idx, tier):
         return res
     except Exception as e:
         st, det = dutm.guarded(lambda: (_ for _ in ()).throw(e))
+        if st == "legality":
+            res.update(status="skipped", reason="illegal-vhdl:" + str(det.get("rule")))
+            return res
         res.update(status="violation", vclass=st, detail=det, payload={"cfg": cfg, "sched": sched, "order_seed": oseed, "order_mode": mode, "source": src})
         return res
     out = dutm.guarded(lambda: simulate(cfg, design, sched, oseed, mode))
